@@ -240,7 +240,18 @@ def abscissae(cp, R):
         # (and last) two samples are locally out of order
         "descending-noisy-ends": _swap_ends(desc),
         "ascending-noisy-ends": _swap_ends(desc[::-1].copy()),
+        # ... and the samples next to the contact point are (a tip that
+        # snaps in and comes free again, position noise above the step)
+        "descending-noisy-contact": _swap_contact(desc, cp),
+        "ascending-noisy-contact": _swap_contact(desc, cp)[::-1].copy(),
     }
+
+
+def _swap_contact(desc, cp):
+    a = desc.copy()
+    i = int(np.argmax(a < cp))      # first indented sample
+    a[i - 1], a[i + 1] = a[i + 1], a[i - 1]
+    return a
 
 
 def _swap_ends(a):
@@ -296,6 +307,10 @@ def _contract_case(case):
         out.append(V(PROP, clause, site=mk, witness=wit, detail=detail,
                      case=case, kind="grid"))
     for aname, x in abscissae(cp, R).items():
+        if "noisy-contact" in aname and not shipped:
+            # (the harness's own models locate the contact with a sorted
+            # search - they are only defined for ordered samples there)
+            continue
         P = make_params(mk, vals)
         pd, xd = cn.digest(P.valuesdict()), cn.digest(x)
         F = md.model(P, x)
@@ -310,6 +325,15 @@ def _contract_case(case):
             viol("orientation", aname, "model(x[::-1]) != model(x)[::-1]: "
                  f"max |d| = {np.max(np.abs(Frev[::-1] - F)):.3e}")
         scale = np.max(np.abs(F - b)) + abs(b) + 1e-300
+        if shipped and "noisy" in aname:
+            # the shipped models are functions of the depth: every sample
+            # gets the force that belongs to its own abscissa value
+            perm = np.argsort(-x, kind="stable")
+            Fsorted = md.model(make_params(mk, vals), x[perm].copy())
+            if not np.array_equal(F[perm], Fsorted):
+                viol("shape-order", aname + ":pointwise", "samples do not "
+                     "get the force of their own abscissa value: max |d| = "
+                     f"{np.max(np.abs(F[perm] - Fsorted)):.3e}")
         # translation covariance
         for s in (2.0 ** -20, -(2.0 ** -20), 1e-7):
             v2 = dict(vals, contact_point=cp + s)
